@@ -47,7 +47,7 @@ pub fn run(prop: &str, ctx: &mut Ctx) -> bool {
             // if RING_INDIRECT_DESC was negotiated for THAT queue)
             if prop == "C01" { c08::run_ring_features(ctx); }
             if prop == "C04" {
-                c20_snd::run_nb(ctx); c06::run_alloc_faults(ctx); c10::run_directed(ctx);
+                c20_snd::run_nb(ctx); c06::run_alloc_faults(ctx); c10::run_directed(ctx); c16::run_recycle(ctx);
                 for f in 0..4u8 { ctx.tr.scenario(&format!("c04-anwp-refused-f{}", f)); qrig::anwp_refused::<4>(ctx, f); qrig::anwp_refused::<16>(ctx, f); }
             }
         }
